@@ -142,8 +142,10 @@ def cases(draw):
     foreign = None
     if not mounted and draw(st.integers(0, 4)) == 0:
         foreign = draw(st.sampled_from(["", "old report\r\n", "{\"a\": 1}", "\x80\x04N.", "\ufeffx"]))
+    # how the path is spelled: absolute, or relative to the working directory (bare file name, ./name, sub/name)
+    style = "abs" if mounted else draw(st.sampled_from(["abs", "abs", "abs", "bare", "dot", "sub"]))
     return {"kind": kind, "mounted": mounted, "pathlib": pathlib_path, "encoding": encoding,
-            "values": values, "reads": reads, "foreign": foreign}
+            "values": values, "reads": reads, "foreign": foreign, "pathstyle": style}
 
 
 JSON_VALUES = _json_values()
@@ -180,6 +182,14 @@ def make_store(case, directory):
 
     if case["mounted"]:
         return TestMountedFileStore(create)
+    style = case.get("pathstyle", "abs")
+    if style == "bare":
+        return create("value.dat")
+    if style == "dot":
+        return create(os.path.join(".", "value.dat"))
+    if style == "sub":
+        os.makedirs(os.path.join(directory, "sub"), exist_ok=True)
+        return create(os.path.join("sub", "value.dat"))
     return create(os.path.join(directory, "value.dat"))
 
 
@@ -215,12 +225,16 @@ def check_case(ctx, case, record=True):
             classes.append("has_CR")
         if case.get("foreign") is not None:
             classes.append("path_held_foreign_content")
+        classes.append("pathstyle:" + case.get("pathstyle", "abs"))
         ctx.case(case, _nontrivial(case), classes)
     directory = tempfile.mkdtemp(prefix="c12-")
+    old_cwd = os.getcwd()
     try:
+        if case.get("pathstyle", "abs") != "abs":
+            os.chdir(directory)  # relative spellings are relative to the working directory (one case at a time)
         store = make_store(case, directory)
         if case.get("foreign") is not None:
-            with open(os.path.join(directory, "value.dat"), "wb") as f:
+            with open(os.path.join(directory, "sub" if case.get("pathstyle") == "sub" else "", "value.dat"), "wb") as f:
                 f.write(case["foreign"].encode("utf-8", "surrogatepass"))
         try:
             t = store.get_modified_time()
@@ -257,6 +271,7 @@ def check_case(ctx, case, record=True):
             if t2 != t:
                 ctx.violation(case, f"modified time changed by read: {t} -> {t2}")
     finally:
+        os.chdir(old_cwd)
         shutil.rmtree(directory, ignore_errors=True)
 
 
